@@ -339,6 +339,34 @@ func c16Main(r *run.Runner) {
 			}
 		}
 	})
+	// long (but readable) lines around buffer-size boundaries: the statements must still be compiled
+	lineLens := []int{255, 256, 257, 1023, 1024, 1025, 4094, 4095, 4096, 4097, 8191, 8192, 8193, 16384, 32767, 32768, 32769, 65000}
+	r.Sweep("long-lines", int64(len(lineLens)), func(w *run.Worker, item int64) {
+		if envs[w.ID] == nil {
+			d := filepath.Join(scratch, fmt.Sprintf("w%d", w.ID))
+			os.MkdirAll(d, 0o755)
+			envs[w.ID] = &cliEnv{bin: bin, dir: d}
+		}
+		e := envs[w.ID]
+		n := lineLens[item]
+		for _, shape := range []func(pad string) string{
+			func(pad string) string { return "T | where a == '" + pad + "';" },
+			func(pad string) string { return "let x = 1; T | where b == x // " + pad },
+			func(pad string) string { return "T | where a == x" + strings.Repeat(" ", len(pad)) + ";U | count;" },
+		} {
+			base := shape("")
+			if n <= len(base) {
+				continue
+			}
+			line := shape(strings.Repeat("y", n-len(base)))
+			for _, input := range []string{line + "\n", "let x = 2;\n" + line + "\nT | take x;\n", line + "\n" + line + "\nT | take 1"} {
+				w.Begin("cli-vs-model:long-line", fmt.Sprintf("%d-byte line: %.60s...", n, line))
+				w.Nontrivial()
+				c16Compare(w, input, "stdin", e.run(w, input), nil)
+				w.Count("traces_validated", 1)
+			}
+		}
+	})
 	// faults
 	faultHist := [][]int{}
 	for _, h := range hist {
